@@ -14,7 +14,7 @@ func init() {
 	register(&PropDef{
 		ID:          "C10",
 		Level:       "other",
-		Explanation: "Structural necessary conditions of a faithful restart, decided from the source: (1) the writer's, the reader's and the reporter's field tables agree — every job/task field that the API mapper reads or that the runner uses on loaded jobs is saved and restored under the same name through an inverse converter pair, with usable JSON tags; (2) the store's codec value resolves (through the dependency's own initialiser) to a configuration without float truncation; (3) the load loop's normalisation table over (started, completed, canceled) leaves every job terminal and already-terminal rows unchanged (all 8 rows); (4) every persisted job is inserted once into both indexes, the snapshot appends every job of the id index, and loading never touches the wait list. Decides these shapes, not the JSON round trip of arbitrary values.",
+		Explanation: "Structural necessary conditions of a faithful restart, decided from the source: (1) the writer's, the reader's and the reporter's field tables agree — every job/task field that the API mapper reads or that the runner uses on loaded jobs is saved and restored under the same name through an inverse converter pair (whose bodies are checked: err ↦ &err.Error(), s ↦ errors.New(*s), text unchanged), with usable JSON tags; (2) the store's codec value resolves (through the dependency's own initialiser) to a configuration without float truncation; (3) the load loop's normalisation table over (started, completed, canceled) leaves every job terminal and already-terminal rows unchanged (all 8 rows); (4) every persisted job is inserted once into both indexes, the snapshot appends every job of the id index, and loading never touches the wait list. Decides these shapes, not the JSON round trip of arbitrary values.",
 		Trusted:     []string{"jsoniter/encoding-json round trip of values for a non-lossy configuration", "time.Time JSON precision"},
 		NotDecided:  []string{"JSON round trip of arbitrary values (library)", "time precision", "which prefix of history a crash preserves (C09/C11)"},
 		Check:       checkC10,
@@ -24,6 +24,7 @@ func init() {
 var convInverse = map[string]string{"helper.ErrToStrPtr": "helper.StrPtrToErr"}
 
 func checkC10(w *World, r *Report) {
+	checkConvInverse(w, r)
 	// ---- 1. tables agree
 	report := w.FieldReads("server", "PipelineJob", "jobTask", "TaskDef")
 	// fields the runner itself needs on loaded jobs (retention decision, running predicate, indexes)
@@ -198,6 +199,64 @@ func checkSaveMap(w *World, r *Report, m *FieldMap, srcType string) {
 			r.OK("tables.save", key, pos, "name-identical"+convNote(e.Conv))
 		}
 	}
+}
+
+// checkConvInverse: the converter pair used for error texts is an inverse pair by shape — saving keeps
+// the text unchanged (nil ↦ nil, err ↦ &err.Error()), loading rebuilds an error with exactly that text
+// (nil ↦ nil, s ↦ errors.New(*s); the empty text may map to nil).
+func checkConvInverse(w *World, r *Report) {
+	enc := w.FuncByName("helper", "ErrToStrPtr")
+	dec := w.FuncByName("helper", "StrPtrToErr")
+	if enc == nil || dec == nil {
+		r.Undecided("tables.conv-inverse", "helper.ErrToStrPtr / helper.StrPtrToErr", "-", "converter pair not found")
+		return
+	}
+	okE, nE := true, 0
+	for _, p := range w.EnumPaths(enc, EnumOpts{}).Paths {
+		if p.End != "return" || len(p.Ret) != 1 {
+			continue
+		}
+		isNil := false
+		for _, l := range p.Lits {
+			if l.Atom.Op == "==" && l.Atom.L == "arg0" && l.Atom.R == "nil" {
+				isNil = l.Val
+			}
+		}
+		nE++
+		if isNil {
+			okE = okE && p.Ret[0] == "nil"
+			continue
+		}
+		cell := strings.TrimPrefix(p.Ret[0], "&")
+		stored := ""
+		for _, e := range p.Effects {
+			if e.Kind == "store" && e.Target == cell {
+				stored = e.Val
+			}
+		}
+		okE = okE && strings.HasPrefix(p.Ret[0], "&local:") && stored == "arg0.Error()"
+	}
+	r.Check(okE && nE >= 2, "tables.conv-inverse", FuncName(enc)+": error ↦ text", w.Pos(enc.Pos()), "nil ↦ nil, err ↦ pointer to err.Error() unchanged", "the save converter does not store the error's text unchanged")
+	okD, nD := true, 0
+	for _, p := range w.EnumPaths(dec, EnumOpts{}).Paths {
+		if p.End != "return" || len(p.Ret) != 1 {
+			continue
+		}
+		nD++
+		if p.Ret[0] == "nil" {
+			// only for a nil pointer or the empty text
+			okNil := false
+			for _, l := range p.Lits {
+				if l.Atom.Op == "==" && (l.Atom.L == "arg0" && l.Atom.R == "nil" || l.Atom.L == "*arg0" && l.Atom.R == "\"\"") && l.Val {
+					okNil = true
+				}
+			}
+			okD = okD && okNil
+			continue
+		}
+		okD = okD && (p.Ret[0] == "errors.New(*arg0)" || strings.HasSuffix(p.Ret[0], "errors.New(*arg0)"))
+	}
+	r.Check(okD && nD >= 2, "tables.conv-inverse", FuncName(dec)+": text ↦ error", w.Pos(dec.Pos()), "nil/empty ↦ nil, s ↦ errors.New(*s) with the text unchanged", "the load converter does not rebuild the error with exactly the stored text: a failed job is reported differently after a restart")
 }
 
 func convNote(c string) string {
